@@ -1,4 +1,5 @@
 """C08 - nested histories partition the tree and reference each other correctly (engine E1)"""
+import os
 from mc import engine, ref, ops
 from mc.engine import Viol
 from props import e1
@@ -193,6 +194,8 @@ def judge(pre, op, post, res, obs, meta):
             # the manifest may be written under a temporary name first: the order is that of the first write-open of
             # the manifest or of its temporary twin
             pth = ev[1][:-4] if isinstance(ev[1], str) and ev[1].endswith(".tmp") else ev[1]
+            if isinstance(pth, str) and not pth.startswith(obs["root"] + "/"):   # the tree was addressed through a symbolic link
+                pth = os.path.join(os.path.realpath(os.path.dirname(pth)), os.path.basename(pth))
             if ev[0] == "open_w" and pth.endswith(".mhl"):
                 rel = pth[len(obs["root"]) + 1:] if pth.startswith(obs["root"] + "/") else None
                 if rel and rel not in order:
@@ -220,7 +223,7 @@ def main(tier, seed):
     plans = [dict(dirs=DIRS, max_cmds=4)] if tier == "quick" else [dict(dirs=DIRS, max_cmds=5), dict(dirs=DIRS_X, max_cmds=4, rich=True)]
     tot = {"states": 0, "transitions": 0}
     runs = []
-    plans += [dict(dirs=DIRS, max_cmds=3 if tier == "quick" else 4, spell=sp) for sp in ("slash", "dot")]   # root spelled 'dir/', '.'
+    plans += [dict(dirs=DIRS, max_cmds=3 if tier == "quick" else 4, spell=sp) for sp in ("slash", "dot", "symlink")]   # root spelled 'dir/', '.'
     for pl in plans:
         meta = dict(alpha="c08", oracles=["c08"], cmds=0, observe=True, max_cmds=pl["max_cmds"], rich=pl.get("rich", False))
         if pl.get("spell"):
